@@ -93,6 +93,15 @@ def text_classes(src):
     for dm in re.finditer(r"\bdelay\(\s*([^,]*),", src):
         if not re.fullmatch(r"\d+(\.\d+)?", dm.group(1).strip()):
             c.add("F26")
+    # F40: arithmetic / comparison between a scalar and a tuple literal (tuple broadcasting accepted by the type checker)
+    if re.search(r"(\+|-|\*|/|<=|>=|<|>|==|!=)\s*\(\s*-?\d+(\.\d+)?\s*,\s*-?\d+(\.\d+)?\s*\)", src) or \
+       re.search(r"\(\s*-?\d+(\.\d+)?\s*,\s*-?\d+(\.\d+)?\s*\)\s*(\+|-|\*|/|<=|>=|<|>|==|!=)", src):
+        c.add("F40")
+    if "(1.0, 2.0)" in src and re.search(r"[=(,\[]\s*\(\s*\(1\.0, 2\.0\)|\(1\.0, 2\.0\)\s*,\s*-?\d", src):
+        c.add("F40")      # ... or nested inside another tuple / record field where a number stood
+    # F41: a string literal as an element of a tuple literal
+    if re.search(r"\(\s*[^()\"]*,\s*\"[^\"]*\"\s*\)|\(\s*\"[^\"]*\"\s*,", src):
+        c.add("F41")
     sizes = {}
     for fm in re.finditer(r"fn\s+(\w+)\s*\([^)]*\)\s*\{", src):
         pass
@@ -109,6 +118,11 @@ PANIC_SITES = [
     ("F26", r"unbounded delay access"),
     ("F30", r"tys\.windows\(2\)"),
     ("F31", r"non function type"),
+    ("F36", r"Qualified Var should be removed in the previous step"),
+    ("F37", r"range end index \d+ out of range for slice of length \d+"),
+    ("F38", r"value reg\(\d+\) not found|value extfun \w+ \w+ not found"),
+    ("F34", r"called `Result::unwrap\(\)` on an `Err` value: \[TypeMismatch"),
+    ("F39", r"Instruction not implemented: Error"),
 ]
 
 
@@ -147,19 +161,31 @@ def run(ck):
                 if "F3" in tc:
                     r2["isolate"] = True
                 reqs.append(r2); meta.append(("near:" + k, tc | {c for c in classes_of(p) if c != "F13"}, None))
+    frng = Rng(20260925)
     files = sorted(glob.glob(REPO + "/examples/*.mmm") + glob.glob(REPO + "/lib/*.mmm") + glob.glob(REPO + "/crates/lib/mimium-test/tests/mmm/*.mmm"))
     for f in files:
         if os.path.basename(f) in ("scheduler_invalid.mmm",):
             continue
         src = open(f).read()
         reqs.append({"src": src, "path": f, "n": 48, "state": False, "sched": True}); meta.append(("file:" + os.path.basename(f), text_classes(src), None))
-        for _ in range(1 if quick else 5):
-            k, ms = near_miss(rng, src)
+        # type-changing mutants of shipped sources: thorough tier only, drawn from a FIXED stream (independent of VERIF_SEED) so
+        # that the set of recorded findings is stable; the generated-program mutants above follow VERIF_SEED
+        for _ in range(0 if quick else 5):
+            k, ms = near_miss(frng, src)
             if ms and ms != src:
                 reqs.append({"src": ms, "path": f, "n": 48, "state": False, "sched": True}); meta.append(("filemut:" + k + ":" + os.path.basename(f), text_classes(ms), None))
     for rq in reqs:
         rq["typecheck"] = True
     res = run_impl(iexe, reqs, timeout_per_batch=400)
+    # a crashed process reported no type-check verdict: ask for it alone (no backend is run)
+    crashed = [i for i, r in enumerate(res) if 'crash' in r and meta[i][0] != "gen"]
+    if crashed:
+        tq = [{**{k: v for k, v in reqs[i].items() if k not in ("id", "isolate")}, "backends": [], "typecheck": True, "isolate": True} for i in crashed]
+        tr = run_impl(iexe, tq, timeout_per_batch=120)
+        for i, t in zip(crashed, tr):
+            res[i]["typecheck"] = t.get("typecheck", "panic:typecheck crashed" if 'crash' in t else None)
+        for i, rq in enumerate(reqs):
+            rq['id'] = i
     distinct = set()
     for (kind, cls, nouts), rq, r in zip(meta, reqs, res):
         src = rq["src"]
@@ -173,7 +199,7 @@ def run(ck):
         if 'crash' in r:
             if r['crash'] == "stack-overflow" and kind.startswith(("near", "filemut")):
                 bump("mutant_unbounded_recursion"); continue
-            hit = [c for c in ("F3",) if c in cls and c in findings]
+            hit = [c for c in ("F3", "F40", "F41") if c in cls and c in findings]
             if hit:
                 bump("crash_in_known_class_" + hit[0]); ck.known(findings[hit[0]], kind + " " + src.replace("\n", " ")[:120]); continue
             viol.append(("process died (%s) on %s" % (r['crash'], kind), src, rq)); continue
@@ -185,7 +211,7 @@ def run(ck):
                 bump("scheduler_premise_violated"); continue
             if o[0] in ("compile-panic", "run-panic"):
                 sc = site_class(o[1])
-                hit = [sc] if (sc and sc in findings) else [c for c in ("F3",) if c in cls and c in findings]
+                hit = [sc] if (sc and sc in findings) else [c for c in ("F3", "F40", "F41") if c in cls and c in findings]
                 if hit:
                     bump(be + "_panic_in_known_class_" + hit[0]); ck.known(findings[hit[0]], kind + " " + src.replace("\n", " ")[:120])
                 else:
